@@ -261,6 +261,19 @@ static std::string handle(const std::string& id, const std::string& op, const st
     ValidationState st;
     if (!ad.fromString(t, st)) return "INVALID";
     if (ad.toString() != t) vh::oracle_fail(id, "toString(fromString(s)) != s");
+    {
+      // an accepted standard text consists of base58 characters only; an accepted multisig text is base59 and its
+      // first 29 characters are base58
+      std::vector<uint8_t> tmp;
+      ValidationState s2, s3;
+      if (ad.getType() == AddressType::STANDARD) {
+        if (has_space(t) || !DecodeBase58(t, tmp, s2)) vh::oracle_fail(id, "accepted STANDARD address text is not base58");
+      } else {
+        std::string head = t.substr(0, t.size() - 1);
+        if (has_space(t) || !DecodeBase59(t, tmp, s2) || !DecodeBase58(head, tmp, s3))
+          vh::oracle_fail(id, "accepted MULTISIG address text is not base59 / its first 29 characters are not base58");
+      }
+    }
     return "OK " + vh::hexnum((uint64_t)ad.getType()) + " " + hexs(ad.toString());
   }
   return "UNKNOWN-OP";
